@@ -1436,6 +1436,34 @@ class Escape:
             return "IndexError"
         # variable index: for i in range(len(base))
         if isinstance(idx, ast.Name):
+            def _bounded_by(target, it) -> bool:
+                # lemma: `for i in range(len(b))` / `range(0, len(b))` draws 0 <= i < len(b); `for i, x in enumerate(b)` likewise
+                it = strip_cast(it)
+                if isinstance(it, ast.Call) and dotted(it.func) == "range" and dotted(target) == idx.id and not it.keywords:
+                    a = it.args
+                    lim = a[0] if len(a) == 1 else a[1] if len(a) == 2 else None
+                    lo_ok = len(a) == 1 or (len(a) == 2 and isinstance(a[0], ast.Constant) and isinstance(a[0].value, int) and a[0].value >= 0)
+                    return lo_ok and isinstance(lim, ast.Call) and dotted(lim.func) == "len" and len(lim.args) == 1 and src(lim.args[0]) == src(base)
+                if isinstance(it, ast.Call) and dotted(it.func) == "enumerate" and len(it.args) == 1 and not it.keywords \
+                        and isinstance(target, (ast.Tuple, ast.List)) and len(target.elts) == 2 and dotted(target.elts[0]) == idx.id:
+                    return src(it.args[0]) == src(base)
+                return False
+
+            fv0 = FuncView.of(f.node)
+            par = fv0.parent.get(id(n))
+            while par is not None and not isinstance(par, ast.stmt):
+                if isinstance(par, (ast.GeneratorExp, ast.ListComp, ast.SetComp, ast.DictComp)):
+                    binders = [g for g in par.generators if any(isinstance(x, ast.Name) and x.id == idx.id for x in ast.walk(g.target))]
+                    if binders:
+                        if _bounded_by(binders[-1].target, binders[-1].iter) and not assignments_to(f.node, src(base)):
+                            return None
+                        if _bounded_by(binders[-1].target, binders[-1].iter):
+                            return None
+                        return "IndexError"
+                par = fv0.parent.get(id(par))
+            for s2, v in assignments_to(f.node, idx.id):
+                if isinstance(s2, (ast.For, ast.AsyncFor)) and _bounded_by(s2.target, s2.iter) and len(assignments_to(f.node, idx.id)) == 1:
+                    return None
             for s2, v in assignments_to(f.node, idx.id):
                 if isinstance(s2, (ast.For, ast.AsyncFor)) and isinstance(s2.iter, ast.Call) and dotted(s2.iter.func) == "range":
                     a = s2.iter.args
@@ -1712,10 +1740,23 @@ class Escape:
         if isinstance(b, ast.Name):
             pass
         # module constant list
-        if isinstance(base, ast.Name) and base.id in f.module.consts:
-            v = f.module.consts[base.id]
+        if isinstance(base, ast.Name) and base.id in f.module.consts and not assignments_to(f.node, base.id):
+            v = strip_cast(f.module.consts[base.id])
             if isinstance(v, (ast.List, ast.Tuple)):
                 return len(v.elts)
+            # a module-level comprehension without filter over another module-level sequence has that sequence's length
+            hops = 0
+            while isinstance(v, (ast.ListComp, ast.GeneratorExp)) and len(v.generators) == 1 and not v.generators[0].ifs and hops < 4:
+                it = strip_cast(v.generators[0].iter)
+                if isinstance(it, (ast.List, ast.Tuple)):
+                    return len(it.elts)
+                if isinstance(it, ast.Name) and it.id in f.module.consts:
+                    v = strip_cast(f.module.consts[it.id])
+                    if isinstance(v, (ast.List, ast.Tuple)):
+                        return len(v.elts)
+                    hops += 1
+                    continue
+                break
         return None
 
     def _elem_min_len(self, f: Func, st: ast.For, name: str) -> Optional[int]:
